@@ -289,6 +289,16 @@ func (wp *Pool) Unallocated() map[arvados.InstanceType]int {
 			creating[it]--
 		}
 	}
+	if time.Now().Before(wp.atQuotaUntil) {
+		// A Create call has already failed with a quota
+		// error, so the calls that are still pending are
+		// expected to fail the same way. Counting them as
+		// capacity would let the scheduler conclude that
+		// there are more unallocated workers than it needs,
+		// and shut down a real (booting) instance in their
+		// place.
+		return unalloc
+	}
 	for it, c := range creating {
 		unalloc[it] += c
 	}
